@@ -706,6 +706,7 @@ func mutate(r *vgen.Rand, sc *scenario, k int) string {
 // ---------------------------------------------------------------- execution
 
 type obs struct {
+	skip         bool // the payload the implementation accepts cannot be decoded from its own encoding
 	coarse, fine int
 	upd          string // Gallina option
 	updDesc      any
@@ -761,6 +762,13 @@ func execute(f *trcgen.Factory, sc *scenario) (TRC, *TRC, []SI, obs) {
 		}
 		dec, err := cppki.DecodeSignedTRC(der)
 		if err != nil {
+			// a payload TRC.Validate accepts whose own encoding is not decodable: serial numbers
+			// >= 2^63 wrap to a negative ASN.1 INTEGER (C33 known finding serial-beyond-int63);
+			// such a successor cannot exist in decoded form, the scenario is not a C32 case
+			if strings.Contains(err.Error(), "base greater than serial") ||
+				strings.Contains(err.Error(), "invalid serial") || strings.Contains(err.Error(), "invalid base") {
+				return TRC{}, nil, nil, obs{skip: true}
+			}
 			panic(err)
 		}
 		// DER sorts the SET OF SignerInfo: hand the model the order the implementation sees
@@ -878,6 +886,11 @@ func main() {
 			continue
 		}
 		abs, predAbs, sis, o := execute(f, sc)
+		if o.skip {
+			run.Tally("skipped:successor-not-decodable-from-its-own-encoding(serial>=2^63)")
+			run.Skip()
+			continue
+		}
 		predT := "None"
 		if predAbs != nil {
 			predT = "(Some " + predAbs.Gallina() + ")"
